@@ -42,6 +42,10 @@ func projectAttr(a *verifapi.Attribute, back map[string]string) map[string]inter
 	var rv interface{}
 	var err error
 	res, _ := lib.Call(func() error { rv, err = a.ReadValue(); return nil })
+	if res != "panic" && err != nil {
+		// a caller who asks again after an error: the handle must still answer (with an error or a value), not panic
+		res, _ = lib.Call(func() error { rv, err = a.ReadValue(); return nil })
+	}
 	if res == "panic" {
 		d.RV = "panic"
 	} else {
